@@ -1516,7 +1516,12 @@ impl<'a> Model<'a> {
             }
             if *st != want && !hostile {
                 let detail = format!("handle {h} ({} id {}): reported {:?}, model says {:?}", kind_name(f.kind), f.pid, st, want);
+                let early_complete = f.kind == FKind::Pub2 && matches!(f.phase, Phase::Released { .. }) && *st == HStatus::Complete;
                 self.bad("C18", format!("C18/status/{:?}-expected-{:?}/{}", st, want, kind_name(f.kind)), detail.clone());
+                if early_complete {
+                    // C03: the exchange is over at PUBCOMP, not at PUBREC (the PUBREL is still owed)
+                    self.bad("C03", "C03/reported-complete-before-pubcomp", detail.clone());
+                }
                 if want == HStatus::Invalidated {
                     // C05: after a fresh broker session every earlier handle reports invalidated
                     self.bad("C05", format!("C05/handle-not-invalidated/{:?}", st), detail);
